@@ -24,7 +24,7 @@ pub fn check_file(
     cross: bool,
 ) {
     let counting = plain.len() > (64 << 20);
-    let sink = if counting { SharedSink::counting_only() } else { SharedSink::new() };
+    let sink = if counting { SharedSink::counting_only() } else { SharedSink::varied(ctx.index ^ file.len() as u64, plain.len()) };
     let obs = sut::new_obs(u64::MAX);
     let c = sut::decode(Entry::Xz, file, &sut::default_options(), rk, &sink, &obs);
     out.evals += 1;
